@@ -272,8 +272,10 @@ def Stack.define (st : Stack) (x : String) (ty : Ty) (v : DV) : Res Stack :=
     else if !ty.admits v then throw .raise
     else pure ((f ++ [{ name := x, ty, val := v }]) :: rest)
 
-def Frame.update (f : Frame) (x : String) (v : DV) : Frame :=
-  List.map (fun b => if b.name == x then { b with val := v } else b) f
+/-- The slot of `x` (the first binding of that name: a frame has one slot per name) takes the value. -/
+def Frame.update : Frame → String → DV → Frame
+  | [], _, _ => []
+  | b :: rest, x, v => if b.name == x then { b with val := v } :: rest else b :: Frame.update rest x v
 
 /-- `x = v` without a declaration: the NEAREST ENCLOSING binding of `x` is updated, its declared
 type enforced; with no binding anywhere, `x` is created untyped in the innermost frame. -/
@@ -304,6 +306,15 @@ def Stack.setAtScope (st : Stack) (x : String) (v : DV) : Res Stack :=
 /-- A loop variable that may not be there (`for (k in m)` binds no value). -/
 def Stack.setOpt (st : Stack) (x : Option String) (v : DV) : Res Stack :=
   match x with | some x => st.setAtScope x v | none => pure st
+
+/-- Parameter binding: every argument must be admitted by its parameter's declared type (checked at
+the call site); the bindings are the callee's first frame. -/
+def paramsAdmit : List (String × Ty) → List DV → Bool
+  | (_, ty) :: ps, a :: as => ty.admits a && paramsAdmit ps as
+  | _, _ => true
+def paramFrame : List (String × Ty) → List DV → Frame
+  | (n, ty) :: ps, a :: as => { name := n, ty := ty, val := a } :: paramFrame ps as
+  | _, _ => []
 
 /-- `unset x`: the nearest binding keeps its slot and type and holds absent. -/
 def Stack.unset : Stack → String → Stack
@@ -1120,8 +1131,8 @@ mutual
         if name.startsWith "#" then p.lits[(name.drop 1).toNat!]? else findFunc p.funcs name
       let some d := def? | failM .fatal
       if d.params.length != args.length then failM .fatal
-      if !(d.params.zip args).all (fun (pt, a) => pt.2.admits a) then failM .fatal
-      let frame : Frame := (d.params.zip args).map fun (pt, a) => { name := pt.1, ty := pt.2, val := a }
+      if !paramsAdmit d.params args then failM .fatal
+      let frame : Frame := paramFrame d.params args
       -- duplicate parameter names: redefinition in one scope
       if (d.params.map (·.1)).eraseDups.length != d.params.length then failM .fatal
       let rv : DV ← inCall d.isLit frame (bodyValue (execBlock p fuel d.body))
@@ -1596,9 +1607,9 @@ mutual
         let some d := findFunc p.subrs name | failM .raise
         let vs ← evalList p fuel args
         if d.params.length != vs.length then failM .raise
-        if !(d.params.zip vs).all (fun (pt, a) => pt.2.admits a) then failM .raise
+        if !paramsAdmit d.params vs then failM .raise
         if (d.params.map (·.1)).eraseDups.length != d.params.length then failM .raise
-        let frame : Frame := (d.params.zip vs).map fun (pt, a) => { name := pt.1, ty := pt.2, val := a }
+        let frame : Frame := paramFrame d.params vs
         let _ ← inCall false frame (execBlock p fuel d.body)
         pure .normal
       | .print nl args => do
